@@ -485,7 +485,7 @@ fn misc_fns(n: usize) -> Result<(), String> {
     konst::manually_drop::as_inner_mut(&mut md).push('x');
     let taken = unsafe { konst::manually_drop::take(&mut md) };
     ensure!(taken == format!("m{n}x"), "manually_drop::take");
-    // ptr::nonnull (null and in-bounds pointers only: `new`/`is_null` are documented as unsound otherwise)
+    // ptr::nonnull
     let mut x = n as u32;
     let nn = konst::ptr::nonnull::from_ref(&x);
     ensure!(unsafe { *konst::ptr::nonnull::as_ref(nn) } == n as u32, "nonnull::from_ref/as_ref");
@@ -495,6 +495,28 @@ fn misc_fns(n: usize) -> Result<(), String> {
     ensure!(konst::ptr::nonnull::new(core::ptr::null_mut::<u8>()).is_none() && konst::ptr::is_null(core::ptr::null::<u8>()), "null handling");
     ensure!(konst::ptr::nonnull::new(&mut x as *mut u32).is_some() && !konst::ptr::is_null(&x as *const u32), "non-null handling");
     ensure!(unsafe { konst::ptr::as_ref(&x as *const u32) } == Some(&x) && unsafe { konst::ptr::as_ref(core::ptr::null::<u32>()) }.is_none(), "ptr::as_ref");
+    // at run time the two null tests are safe functions over *any* raw pointer: none of these may be dereferenced or
+    // turned into a reference on the way (under Miri: unaligned / dangling / out-of-bounds reference, invalid metadata)
+    {
+        let base = &x as *const u32;
+        let freed = { let b = Box::new(n as u32); let p = &*b as *const u32; drop(b); p };
+        let odd: [*const u32; 6] = [
+            (base as *const u8).wrapping_add(1) as *const u32,
+            core::ptr::NonNull::<u32>::dangling().as_ptr() as *const u32,
+            base.wrapping_add(1),
+            base.wrapping_add(1000 + n),
+            freed,
+            core::ptr::without_provenance::<u32>(n + 1),
+        ];
+        for p in odd {
+            ensure!(!konst::ptr::is_null(p), "ptr::is_null({p:?}) on a non-null pointer that is not a valid reference");
+            ensure!(konst::ptr::nonnull::new(p as *mut u32).map(|q| q.as_ptr() as *const u32) == Some(p), "ptr::nonnull::new({p:?})");
+        }
+        let wide = core::ptr::slice_from_raw_parts(base as *const u8, usize::MAX - n);
+        ensure!(!konst::ptr::is_null(wide) && konst::ptr::nonnull::new(wide as *mut [u8]).is_some(), "null tests on a slice pointer with a huge length");
+        let wide_null = core::ptr::slice_from_raw_parts(core::ptr::null::<u8>(), 3);
+        ensure!(konst::ptr::is_null(wide_null) && konst::ptr::nonnull::new(wide_null as *mut [u8]).is_none(), "null tests on a null slice pointer");
+    }
     // macros wrapping unsafe blocks: array map / from_fn / collect_const / string::from_iter / destructure
     let m: [String; 3] = konst::array::map!([1u8, 2, 3], |x| format!("{}", x as usize + n));
     ensure!(m[2] == format!("{}", 3 + n), "array::map!");
@@ -682,7 +704,7 @@ fn real_main() {
     if miri {
         ctx.assume("miri mode: compact deterministic corpus; Miri is the UB oracle (out-of-bounds pointer arithmetic, uninitialised reads, invalid values, aliasing violations)");
     }
-    ctx.assume("ptr::is_null / ptr::nonnull::new are exercised with null and in-bounds pointers only (documented as unsound for out-of-bounds pointers)");
+    ctx.assume("ptr::is_null / ptr::nonnull::new: any raw pointer at run time (misaligned, dangling, freed, out of bounds, huge slice metadata); in const evaluation only null / in-bounds / one-past-the-end pointers must evaluate (listed finding for the rest, gen_const)");
     if let Some(p) = &args.replay {
         let (_check, case) = kvh::load_replay(p);
         let cs: Vec<Case> = match serde_json::from_value::<Case>(case.clone()) {
